@@ -320,14 +320,29 @@ def relabelled(s3, rel):
 
 
 def oracle(case):
+    info = case.setdefault("_info", {})
+    s3, pairs2d = pairs_for_case(case, info)
+    if s3 is None:
+        return []
+    out = check_mapping(s3, pairs2d, case["find_gaps"], case.get("via_adapter", False), info)
+    seen, res = set(), []
+    for d in out:
+        if d.sig not in seen:
+            seen.add(d.sig)
+            res.append(d)
+    return res
+
+
+def pairs_for_case(case, info=None):
+    """(Structure3D, list of BasePair) described by a case; (None, None) when the case is skipped"""
+    info = info if info is not None else {}
     s3 = corpus.structure(case["file"])
     if case.get("relabel"):
         s3 = relabelled(s3, case["relabel"])
     idents = [(r.chain, r.number, r.icode) for r in s3.residues]
-    info = case.setdefault("_info", {})
     if len(set(idents)) != len(idents):
         info["skipped"] = True
-        return []
+        return None, None
     if case.get("own_annotation"):
         from rnapolis.annotator import extract_base_interactions
 
@@ -336,7 +351,7 @@ def oracle(case):
         nts = [k for k, r in enumerate(s3.residues) if r.is_nucleotide]
         if len(nts) < 2:
             info["skipped"] = True
-            return []
+            return None, None
         entries = []
         for e in case["entries"]:
             def pick(x):
@@ -356,13 +371,7 @@ def oracle(case):
                 lw = e["lw"]
                 entries.append({"r1": r2, "r2": r1, "lw": lw[0] + lw[2] + lw[1], "saenger": case.get("saenger", False)})
         pairs2d = build_pairs(s3, entries)
-    out = check_mapping(s3, pairs2d, case["find_gaps"], case.get("via_adapter", False), info)
-    seen, res = set(), []
-    for d in out:
-        if d.sig not in seen:
-            seen.add(d.sig)
-            res.append(d)
-    return res
+    return s3, pairs2d
 
 
 def classify(case):
